@@ -525,6 +525,7 @@ func (self *AofFile) Flush() error {
 		self.windex = 0
 		self.dirtied = true
 	}
+	verifYield(verifPointAofFlushMid)
 
 	if self.dataFile != nil && self.dwindex > 0 {
 		for tn := 0; tn < self.dwindex; {
@@ -1918,6 +1919,7 @@ func (self *Aof) RewriteAofFile(startReWrite bool) error {
 		}
 		self.aofFile = nil
 	}
+	verifYield(verifPointAofRewrite + 6)
 
 	aofFileIndex := self.aofFileIndex + 1
 	if aofFileIndex == 0 {
@@ -1933,6 +1935,7 @@ func (self *Aof) RewriteAofFile(startReWrite bool) error {
 	self.aofFileIndex = aofFileIndex
 	self.aofFileOffset = 0
 	self.slock.Log().Infof("Aof create current file %s.%d", "append.aof", aofFileIndex)
+	verifYield(verifPointAofRewrite + 7)
 
 	if startReWrite {
 		go self.rewriteAofFiles()
@@ -1960,6 +1963,8 @@ func (self *Aof) WaitRewriteAofFiles() error {
 }
 
 func (self *Aof) rewriteAofFiles() {
+	verifYield(verifPointAofRewrite)
+	defer verifYield(verifPointAofRewrite + 9)
 	self.glock.Lock()
 	if self.isRewriting {
 		self.glock.Unlock()
@@ -2085,6 +2090,7 @@ func (self *Aof) loadRewriteAofFiles(aofFilenames []string) (*AofFile, []*AofFil
 	if err != nil {
 		self.slock.Log().Errorf("Aof rewrite close file error %v", err)
 	}
+	verifYield(verifPointAofRewrite + 1)
 	return rewriteAofFile, aofFiles, lerr
 }
 
@@ -2095,17 +2101,21 @@ func (self *Aof) clearRewriteAofFiles(aofFilenames []string) {
 			self.slock.Log().Errorf("Aof rewrite remove file error %s %v", aofFilename, err)
 			continue
 		}
+		verifYield(verifPointAofRewrite + 2)
 		_ = os.Remove(filepath.Join(self.dataDir, fmt.Sprintf("%s.%s", aofFilename, "dat")))
+		verifYield(verifPointAofRewrite + 3)
 		self.slock.Log().Infof("Aof rewrite remove file %s", aofFilename)
 	}
 	err := os.Rename(filepath.Join(self.dataDir, "rewrite.aof.tmp"), filepath.Join(self.dataDir, "rewrite.aof"))
 	if err != nil {
 		self.slock.Log().Errorf("Aof rewrite rename rewrite.aof.tmp to rewrite.aof error %v", err)
 	}
+	verifYield(verifPointAofRewrite + 4)
 	err = os.Rename(filepath.Join(self.dataDir, "rewrite.aof.tmp.dat"), filepath.Join(self.dataDir, "rewrite.aof.dat"))
 	if err != nil {
 		self.slock.Log().Errorf("Aof rewrite rename rewrite.aof.tmp.dat to rewrite.aof.dat error %v", err)
 	}
+	verifYield(verifPointAofRewrite + 5)
 }
 
 func (self *Aof) clearAofFiles() error {
